@@ -70,6 +70,20 @@ theorem execTarget_true {P : Params κ} {cfg : Cfg} {defs : Defs} {t : Target} {
         · simp [resFor, ohFor]
         · simp [ohFor]
 
+/-- the workspace after an execution attempt: untouched, or what the command (which returned exit 0) left -/
+theorem execTarget_fs (P : Params κ) (cfg : Cfg) (defs : Defs) (t : Target) (k : κ) (clr : Bool) (s : BState κ) :
+    (execTarget P cfg defs t k clr s).1.fs = s.fs ∨
+    ((P.run t.cmd (viewAt defs t s.fs)).exit0 = true ∧ (execTarget P cfg defs t k clr s).1.fs = fsAfter P defs t s.fs) := by
+  unfold execTarget
+  simp only
+  split
+  · exact Or.inl rfl
+  · rename_i hx
+    have hx' : (P.run t.cmd (viewAt defs t s.fs)).exit0 = true := by simpa using hx
+    split
+    · exact Or.inr ⟨hx', rfl⟩
+    · split <;> exact Or.inr ⟨hx', rfl⟩
+
 /-- a failed execution stores nothing and marks nothing -/
 theorem execTarget_false {P : Params κ} {cfg : Cfg} {defs : Defs} {t : Target} {k : κ} {clr : Bool} {s s' : BState κ}
     (h : execTarget P cfg defs t k clr s = (s', false)) :
@@ -133,6 +147,19 @@ theorem writeOuts_get (l : Outs) (fs : FS) (hn : (l.map (·.1.path)).Nodup) (ov 
     · subst h
       rw [writeOuts_not_mem l _ _ hn.1]; simp
     · exact ih _ hn.2 h
+
+theorem writeOuts_agree (l : Outs) (fs fs' : FS) (p : Path) (h : p ∈ l.map (·.1.path)) : writeOuts fs l p = writeOuts fs' l p := by
+  induction l generalizing fs fs' with
+  | nil => simp at h
+  | cons ov l ih =>
+    simp only [writeOuts]
+    by_cases hp : p ∈ l.map (·.1.path)
+    · exact ih _ _ hp
+    · rw [writeOuts_not_mem l _ p hp, writeOuts_not_mem l _ p hp]
+      simp only [List.map_cons, List.mem_cons] at h
+      rcases h with h | h
+      · subst h; simp
+      · exact absurd h hp
 
 theorem writeSets_not_mem (l : List (Path × Val)) (fs : FS) (p : Path) (h : p ∉ l.map (·.1)) : writeSets fs l p = fs p := by
   induction l generalizing fs with
